@@ -181,7 +181,8 @@ func writeReplay(repo, verif, path, prop string, v *aggGoal, cs *ContractSet) st
 				rep["query"] = dst
 			}
 		}
-		if v.Fail.Res.Status == "sat" {
+		if v.Fail.Res.Status == "sat" || v.Fail.Res.Candidate {
+			rep["model_is_candidate_from_relaxation"] = v.Fail.Res.Candidate
 			vals := modelValues(v.Fail.Res.Model)
 			rep["model_inputs"] = vals
 			if ct := cs.ByFunc[v.Fn]; ct != nil && ct.Replay != nil {
